@@ -823,7 +823,8 @@ fn reference(op: Op, lx: usize, ly: usize, x: &Big, y: &Big, cond: bool) -> (Big
             let ys = if ly > 0 && y.bit(ly - 1) { y.sub(&Big::pow2(ly)) } else { *y };
             (x.mul(&ys).mask(lx + ly), lx + ly, None)
         }
-        Op::Or => (x.or(y), lx, None),
+        // operands of unequal length: the OR of the two integers has the length of the longer one
+        Op::Or => (x.or(y), lx.max(ly), None),
         Op::Select => (if cond { *x } else { *y }, lx, None),
     }
 }
@@ -836,8 +837,23 @@ fn case_json(c: &BoolCase) -> Value {
 /// run the case and compare every lane of every record with the reference
 fn check_bool(env: &Env, case: &BoolCase) -> Result<(), CaseErr> {
     let (blk, md) = (case.op.name(), case.mode.name());
-    let outs = match execute_bool(case) {
+    // bool_or with operands of unequal length: refusing them (panic or error, nothing returned)
+    // is fine; what comes back otherwise must be the OR of the two integers
+    let may_refuse = case.op == Op::Or && case.lx != case.ly;
+    let run = if may_refuse {
+        match catch(|| execute_bool(case)) {
+            Ok(r) => r,
+            Err(_) => return Ok(()),
+        }
+    } else {
+        execute_bool(case)
+    };
+    let outs = match run {
         Ok(o) => o,
+        Err(e) if may_refuse && !e.starts_with("INCONSISTENT") && !e.contains("(hang)") => {
+            let _ = e;
+            return Ok(());
+        }
         Err(e) => {
             let kind = if e.starts_with("INCONSISTENT") { "inconsistent-sharing" } else { "protocol-error" };
             return known_or_violation(env, &format!("{blk}:{md}:{kind}"), format!("{blk} ({md}, vector width {}, |x|={}, |y|={}): {e}", case.lanes, case.lx, case.ly), case_json(case));
@@ -1038,7 +1054,19 @@ fn gen_bool_case(env: &Env, src: &mut Src<'_>) -> (BoolCase, String) {
             let narrower = |src: &mut Src<'_>| if lx > 1 { src.urange(1, lx - 1) } else { lx };
             let wider = |src: &mut Src<'_>| if lx < 256 { src.urange(lx + 1, 256) } else { lx };
             match op {
-                Op::Or => (lanes, lx, lx, lx, lx),
+                // unequal lengths: the block may refuse them (it is documented to panic) or return
+                // the OR of the two integers; see check_bool
+                Op::Or => match rel {
+                    0 => {
+                        let ly = narrower(src);
+                        (lanes, lx, ly, lx, ly)
+                    }
+                    1 => {
+                        let ly = wider(src);
+                        (lanes, lx, ly, lx, ly)
+                    }
+                    _ => (lanes, lx, lx, lx, lx),
+                },
                 Op::SatAdd => {
                     let ly = if rel == 0 { narrower(src) } else { lx };
                     (lanes, lx, ly, lx, ly)
@@ -2057,7 +2085,7 @@ pub fn subs(_env: &Env) -> Vec<Sub> {
         Sub::exhaustive("exh_8bit", 3072, 3072, exh_8bit,
             "all 2^16 pairs of 8-bit operands for integer_add, integer_sat_add, compare_gt (256 pairs per call through the N=256 vectorisation) and integer_sub, compare_geq, integer_sat_sub over BA8 (not vectorised: 256 records of one world), in both modes: case i = (mode, circuit, x) with y = 0..=255"),
         Sub::random("bool_random", 64, 8000, 80_000, bool_random,
-            "circuits as in exh_small with |x| in 1..=256 biased to {16,17,24,31,32,33,48,63,64,65,96,127,128,129,200,255,256} (integer_mul: |x|,|y| <= 32 quick / 64 thorough; select and integer_sat_sub over BA{3,5,8,16,20,32,64,256}), |y| equal / narrower / wider where the doc comment allows (comparisons: a wider y has zero excess bits; integer_sat_add: never wider), every implemented vector width, 1-6 records, share masks all-zero / all-one / random; operand pairs per lane from the classes zero-zero, ones-ones, equal, carry chain (2^k-1)+1, full carry chain, x+y in {2^n-2..2^n+1} (saturation exactly at the limit), neighbours x=y+-1, boundary-boundary, powers of two, random, small y, differ-in-msb; non-trivial = some operand non-zero; distinct by (circuit, mode, width, lengths, first operand pair, record count)")
+            "circuits as in exh_small with |x| in 1..=256 biased to {16,17,24,31,32,33,48,63,64,65,96,127,128,129,200,255,256} (integer_mul: |x|,|y| <= 32 quick / 64 thorough; select and integer_sat_sub over BA{3,5,8,16,20,32,64,256}), |y| equal / narrower / wider where the doc comment allows (comparisons: a wider y has zero excess bits; integer_sat_add: never wider; bool_or: unequal lengths are either refused - the documented panic - or answered with the OR of the two integers at the longer length), every implemented vector width, 1-6 records, share masks all-zero / all-one / random; operand pairs per lane from the classes zero-zero, ones-ones, equal, carry chain (2^k-1)+1, full carry chain, x+y in {2^n-2..2^n+1} (saturation exactly at the limit), neighbours x=y+-1, boundary-boundary, powers of two, random, small y, differ-in-msb; non-trivial = some operand non-zero; distinct by (circuit, mode, width, lengths, first operand pair, record count)")
             .shrink_iters(40),
         Sub::random("multiply_fields", 40, 5000, 150_000, multiply_fields,
             "multiply over Fp31, Fp32BitPrime (x1, x32), Fp61BitPrime, Fp25519 (x1, x16), Gf2, Gf8Bit, Gf32Bit (x1, x32), Boolean x {1,3,5,8,16,20,32,64,256} on the base semi-honest context, the DZKP semi-honest context, the MAC-malicious context (prime fields, Fp25519, Gf2: upgrade, multiply, validate_record) and the DZKP-malicious context (Boolean, validate()); field OR on 0/1 shares; operands 0, 1, largest element, random; 1-8 records; oracle = u128 modular product / carry-less product with long division by the reduction polynomial / curve25519-dalek scalar product + consistency of the product sharing")
